@@ -244,7 +244,12 @@ def _split(a, c):
         return a // c, a % c
     ta, tb = {}, {}
     for x, k in a.terms:
-        q, r = divmod(k, c)
+        if k < 0:
+            # keep a negative coefficient negative: -x is friendlier than -c*x + (c-1)*x for the solvers
+            q = -((-k) // c)
+            r = k - q * c
+        else:
+            q, r = divmod(k, c)
         if q:
             ta[x] = q
         if r:
